@@ -195,6 +195,15 @@ impl Out {
             Out::Panic(m) => format!("PANIC: {}", m),
         }
     }
+    /// outcome without positions: value, or error reason
+    pub fn sem(&self) -> String {
+        match self {
+            Out::CompileErr(e) => format!("compile-error: {:?}", classify(e)),
+            Out::Value(..) => self.brief(),
+            Out::SearchErr(e) => format!("search-error: {:?}", e.reason),
+            Out::Panic(m) => format!("PANIC: {}", m),
+        }
+    }
     pub fn class(&self) -> String {
         match self {
             Out::CompileErr(_) => "compile-error".into(),
